@@ -9,7 +9,7 @@ from types import TracebackType
 from typing import Any, Final, cast
 
 import aiosqlite
-from cachebox import cached
+from cachebox import cached, postprocess_deepcopy_mutables
 
 from streamflow.core import utils
 from streamflow.core.context import StreamFlowContext
@@ -24,6 +24,12 @@ DEFAULT_SQLITE_CONNECTION: Final[str] = os.path.join(
     os.path.expanduser("~"), ".streamflow", VERSION, "sqlite.db"
 )
 IN_MEMORY_SQLITE_CONNECTION: Final[str] = ":memory:"
+
+
+def _id_key(*args: Any, **kwargs: Any) -> Any:
+    # The cache key is the entity id, whether it is passed positionally or by keyword,
+    # so that `update_*` methods (which pop the bare id) always invalidate it
+    return args[0] if args else next(iter(kwargs.values()))
 
 
 def _load_keys(
@@ -332,7 +338,11 @@ class SqliteDatabase(CachedDatabase):
             ) as cursor:
                 return await cursor.fetchall()
 
-    @cached(cache=lambda self: self.deployment_cache)
+    @cached(
+        cache=lambda self: self.deployment_cache,
+        key_maker=_id_key,
+        postprocess=postprocess_deepcopy_mutables,
+    )
     async def get_deployment(self, deployment_id: int) -> MutableMapping[str, Any]:
         async with self.connection as db:
             async with db.execute(
@@ -360,7 +370,11 @@ class SqliteDatabase(CachedDatabase):
             ) as cursor:
                 return await cursor.fetchall()
 
-    @cached(cache=lambda self: self.filter_cache)
+    @cached(
+        cache=lambda self: self.filter_cache,
+        key_maker=_id_key,
+        postprocess=postprocess_deepcopy_mutables,
+    )
     async def get_filter(self, filter_id: int) -> MutableMapping[str, Any]:
         async with self.connection as db:
             async with db.execute(
@@ -408,7 +422,11 @@ class SqliteDatabase(CachedDatabase):
             ) as cursor:
                 return await cursor.fetchall()
 
-    @cached(cache=lambda self: self.port_cache)
+    @cached(
+        cache=lambda self: self.port_cache,
+        key_maker=_id_key,
+        postprocess=postprocess_deepcopy_mutables,
+    )
     async def get_port(self, port_id: int) -> MutableMapping[str, Any]:
         async with self.connection as db:
             async with db.execute(
@@ -462,7 +480,11 @@ class SqliteDatabase(CachedDatabase):
                         )
                     return list(result.values())
 
-    @cached(cache=lambda self: self.step_cache)
+    @cached(
+        cache=lambda self: self.step_cache,
+        key_maker=_id_key,
+        postprocess=postprocess_deepcopy_mutables,
+    )
     async def get_step(self, step_id: int) -> MutableMapping[str, Any]:
         async with self.connection as db:
             async with db.execute(
@@ -470,7 +492,11 @@ class SqliteDatabase(CachedDatabase):
             ) as cursor:
                 return _load_keys(dict(await cursor.fetchone()))
 
-    @cached(cache=lambda self: self.target_cache)
+    @cached(
+        cache=lambda self: self.target_cache,
+        key_maker=_id_key,
+        postprocess=postprocess_deepcopy_mutables,
+    )
     async def get_target(self, target_id: int) -> MutableMapping[str, Any]:
         async with self.connection as db:
             async with db.execute(
@@ -478,7 +504,11 @@ class SqliteDatabase(CachedDatabase):
             ) as cursor:
                 return _load_keys(dict(await cursor.fetchone()))
 
-    @cached(cache=lambda self: self.token_cache)
+    @cached(
+        cache=lambda self: self.token_cache,
+        key_maker=_id_key,
+        postprocess=postprocess_deepcopy_mutables,
+    )
     async def get_token(self, token_id: int) -> MutableMapping[str, Any]:
         async with self.connection as db:
             async with db.execute(
